@@ -273,6 +273,35 @@ func driveRend(args []string) error {
 				o := &progOpts{maxPaths: 3, maxRun: 4, lattice: true, arcs: fam == "arcs" || i%4 == 0}
 				prog := genProgram(rng, o)
 				prog[0] = resetCall(cfg.vb, defaultPal())
+				if i%8 == 5 {
+					// the same random geometry painted with gradients: every colour register except the two stops holds a
+					// valid two-stop gradient before the program proper starts (its own register writes may replace some)
+					sel := func(op string, v int) Call { c := mkCall(op); c.Sel = v; return c }
+					pre := []Call{prog[0], sel("SetCSel", 10), sel("SetNSel", 10)}
+					for s := 0; s < 2; s++ {
+						cc := mkCall("SetCReg")
+						cc.C, cc.Incr = []int{0, 200 * s, 10, 20, 255}, 1
+						nn := mkCall("SetNReg", float32(s))
+						nn.Incr = 1
+						pre = append(pre, cc, nn)
+					}
+					for k, v := range []float32{0.0625, -0.015625, 0.25, 0.0078125, 0.03125, -0.5} {
+						nn := mkCall("SetNReg", v)
+						nn.Adj = 6 - k
+						pre = append(pre, sel("SetNSel", 10), nn)
+					}
+					for reg := 0; reg < 64; reg++ {
+						if reg == 10 || reg == 11 {
+							continue
+						}
+						g := mkCall("SetCReg")
+						g.C = []int{0, 2 | (i/8%4)<<6, 10 | (i/32%2)<<6, 0x80 | 10, 0}
+						pre = append(pre, sel("SetCSel", reg), g)
+					}
+					pre = append(pre, sel("SetCSel", 0), sel("SetNSel", 0))
+					prog = append(pre, prog[1:]...)
+					stats[fam+".gradient_painted"]++
+				}
 				// keep coordinates inside a modest range around the viewBox so that pixel values stay on the lattice
 				lateRaster = i%6 == 1
 				t := newTracedRenderer(sh.Next(), fmt.Sprintf("%s/%d", fam, i), cfg.rect)
